@@ -20,6 +20,7 @@
 import Cog.Builder.VeneerLemmas
 import Cog.Builder.WTLemmas
 import Cog.Builder.FrameLemmas
+import Cog.Builder.DerivedWT
 import Cog.Builder.Witness
 namespace Cog.Builder
 open Cog.IR
@@ -401,6 +402,31 @@ theorem C17_disjunction_as_options_same_target (idx : Int) (ss : Schemas) (o : O
         exact disjunctionOnTarget_paths ss o idx.toNat target out (by simpa using h)
 
 
+/-! ## the derived builders are well-typed -/
+
+/-- the structs that get a builder have pairwise distinct field names (decidable) -/
+def distinctFieldNames (ss : Schemas) : Bool :=
+  (allObjects ss).all fun so =>
+    match structFieldsOf ss so.2.ty with
+    | some fs => decide (fs.map (·.name)).Nodup
+    | none => true
+
+/-- **Base case.** Every builder set derived by `FromAST` is well-typed (field names being distinct,
+    a path item names *the* field of that name). -/
+theorem C17_derived_WT (ss : Schemas) (bs : Builders) (h : fromAST ss = .ok bs)
+    (hd : distinctFieldNames ss = true) : WTs ss bs = true := by
+  simp only [WTs, List.all_eq_true]
+  intro b hb
+  obtain ⟨so, hsel, hfor, _, _, fs, hfs, hcov⟩ := All2.exists_right (schemasBuilders_spec ss ss bs h) b hb
+  have hso : so ∈ allObjects ss := (List.mem_filter.1 hsel).1
+  have hnd : (fs.map (·.name)).Nodup := by
+    have := List.all_eq_true.1 hd so hso
+    simp only [hfs] at this
+    exact of_decide_eq_true this
+  exact covered_WT ss b fs (by rw [hfor]; exact hfs) hnd hcov
+
+example : distinctFieldNames wDupBuilder.ss = true := by decide
+
 /-! ## well-typedness is preserved -/
 
 /-- every simple builder rule (`omit`, `rename`, `properties`, `add_factory`, `duplicate`) preserves
@@ -474,6 +500,13 @@ theorem C17_seq (files : List VFile) (language : String) (ss : Schemas) (bs bs' 
         exact hlang language st1 st' ha (hlang "all" _ st1 h1 (by rw [WTs_renumber]; exact hw))
 
 example : simpleFiles wDupBuilder.files = true := by decide
+
+/-- **End to end**, as `codegen` runs it: derive the builders, then rewrite them with rule files whose
+    rules are simple — the result is well-typed. -/
+theorem C17_end_to_end (files : List VFile) (language : String) (ss : Schemas) (bs bs' : Builders) (n : Nat)
+    (hf : fromAST ss = .ok bs) (hd : distinctFieldNames ss = true) (hsimple : simpleFiles files = true)
+    (h : rewrite files language ss bs n = .ok bs') : WTs ss bs' = true :=
+  C17_seq files language ss bs bs' n hsimple h (C17_derived_WT ss bs hf hd)
 
 /-- the property at full strength: *any* rule files -/
 def C17_seq_full : Prop :=
